@@ -259,6 +259,13 @@ CORPUS = [
     ({"k": "dict", "key": {"k": "string"}, "value": {"k": "bytes", "encoding": "hex"}}, {"a": b"\xff"}),
     ({"k": "list", "item": {"k": "secure", "method": "xor"}}, ["s1", "s2"]),
     ({"k": "ipv4net", "max_len": 8}, "10.0.0.1"),
+    # typed dicts whose keys have an on-disk form of their own
+    ({"k": "dict", "key": {"k": "bytes", "encoding": "base64"}, "value": {"k": "int"}}, {b"hello": 1, b"\x00\xff\x10": 2}),
+    ({"k": "dict", "key": {"k": "bytes", "encoding": "hex"}, "value": {"k": "string"}}, {b"\xde\xad": "a", b"\x01": "b"}),
+    ({"k": "dict", "key": {"k": "bytes", "encoding": "hex"}, "value": {"k": "bytes", "encoding": "base64"}}, {b"\x00": b"\x00\x01"}),
+    # validators of the application's own whose result is falsy
+    ({"k": "int", "custom": "clamp0"}, -5), ({"k": "int", "custom": "clamp0", "min": 0}, 0), ({"k": "string", "custom": "blank"}, "#comment"),
+    ({"k": "string", "custom": "blank", "strip": True}, "  #c  "),
 ]
 
 
